@@ -32,6 +32,7 @@ type Ptr struct {
 	idx   Term
 	bref  *BytesRef // element of a mutable byte buffer
 	glob  string    // pointer to a package-level variable
+	globSort string
 }
 
 type Tuple struct{ vals []Val }
